@@ -13,6 +13,11 @@ session 4: every constructor option of every serializer is a spec key drawn from
            keyed checksums, compression levels, pickle protocols, any one-shot serializer inside the wrappers, composites whose
            halves differ); valid packet = what the sender accepts (sers.valid_packet), generated so that it NEEDS the option (lone
            surrogates, interior NUL bytes, text ending with a lone CR / LF); corpus `_session4_corpus` (docs/SER-STRENGTHENING.md 6-10)
+round 5  : case kind `ep` (vlib/c01_endpoints.py, docs/C01.md): the packets are received through recv_packet() of the REAL endpoints
+           (blocking StreamEndpoint / StreamReceiverEndpoint, AsyncStreamEndpoint / AsyncStreamReceiverEndpoint over in-memory transports,
+           several packets per read, max_recv_size variation), sent through every generate_chunks() / send_packet(); falsy packet values
+           (None 0 False "" b"" [] {}); converter objects drawn from a family (plain, falsy by __len__ / __bool__, StapledPacketConverter,
+           rejecting converters, falsy business objects), also through DatagramProtocol
 """
 from __future__ import annotations
 
@@ -54,7 +59,8 @@ ASSUMPTIONS = [
 RULE = (
     "case = serializer config (incl. debug=True variants, packets that keep their deserialize() argument, 1..4-byte separators, "
     "composites, file toys with every expected_load_error set) x packet list x cut sizes (copy path) or fill sizes + buffer hint "
-    "(buffered path) x converter; "
+    "(buffered path) x converter; kind ep: receive entry point (consumers, recv_packet() of the blocking / asyncio stream endpoints, "
+    "DatagramProtocol) x send path x converter object family x falsy packet values x reads (k frames per read, cut sizes) x max_recv_size; "
     "non-trivial = at least one cut strictly inside a frame, or several frames delivered from one read; distinct by full case digest"
 )
 
@@ -468,3 +474,11 @@ from vlib import genericfr as _genericfr  # noqa: E402
 
 _genericfr.install(globals(), "C01")
 # ---- end generic framers ----
+
+# ---- round 5: receive entry points of the real endpoints, converter family, falsy packet values ----
+# adds the case kind "ep" (vlib/c01_endpoints.py): recv_packet() of the blocking and asyncio stream endpoints over in-memory
+# transports, converter objects drawn from a family (plain, falsy, stapled, rejecting, falsy business objects), DatagramProtocol
+from vlib import c01_endpoints as _c01_endpoints  # noqa: E402
+
+_c01_endpoints.install(globals())
+# ---- end round 5 ----
